@@ -15,7 +15,10 @@ pub(super) enum HandshakeState<Auth: Sasl> {
     Tune(ConnectionOptions<Auth>, FieldTable),
     Open(TuneOk, FieldTable),
     ServerClosing(Close),
-    Done(TuneOk, FieldTable),
+    // The third field holds frames that were read together with open-ok (e.g., a
+    // connection.blocked the server sent right behind it). They belong to the open
+    // connection, not to the handshake.
+    Done(TuneOk, FieldTable, Vec<AMQPFrame>),
 }
 
 impl<Auth: Sasl> HandshakeState<Auth> {
@@ -75,9 +78,11 @@ impl<Auth: Sasl> HandshakeState<Auth> {
                 let open_ok = OpenOk::try_from(0, frame)?;
                 debug!("received handshake {:?}", open_ok);
 
-                *self = HandshakeState::Done(tune_ok.clone(), server_properties.clone());
+                *self =
+                    HandshakeState::Done(tune_ok.clone(), server_properties.clone(), Vec::new());
             }
-            HandshakeState::ServerClosing(_) | HandshakeState::Done(_, _) => {
+            HandshakeState::Done(_, _, early_frames) => early_frames.push(frame),
+            HandshakeState::ServerClosing(_) => {
                 return FrameUnexpectedSnafu.fail();
             }
         }
